@@ -153,6 +153,15 @@ def main():
                        reproduced_on_real_code=rp.get('reproduced'), playback_log=rp.get('log'), why=rp.get('why'))
             if not rp.get('reproduced'):
                 suffix = ' no-failing-input-found'
+                if rp.get('why') == 'native playback did not fail':
+                    # the verifier's counterexample, executed natively on the real code, satisfies the
+                    # obligation: a tool artefact (e.g. CBMC's handling of bool ordering), not a violation
+                    json.dump(rep, open(path, 'w'), indent=1)
+                    results[o['id']]['status'] = 'undecided'
+                    results[o['id']]['detail'] = 'spurious counterexample: native replay on the real code passes; see ' + path
+                    undecided.append(o['id'])
+                    real_violations -= 1
+                    continue
         else:
             rep.update(reproduced_on_real_code=False, why='Verus gives no counterexample')
             suffix = ' no-failing-input-found'
